@@ -4,7 +4,7 @@ set -e
 PROP=$1; PATCH=$(readlink -f $2); REV=$3
 T=$(mktemp -d /tmp/mutXXXX)
 mkdir -p $T/repo && cp -r /repo/src $T/repo/src
-(cd $T/repo && patch -p1 -s $REV < $PATCH)
+(cd $T/repo && patch -p1 -s $( [ "$REV" = "-R" ] && echo -R ) < $PATCH)
 cd /verif
-VERIF_NO_EVIDENCE=1 VERIF_REPO_SRC=$T/repo/src timeout 600 ./check $PROP quick ${@:4} 2>&1 | grep -v "^WARN" | tail -6
+VERIF_NO_EVIDENCE=1 VERIF_REPO_SRC=$T/repo/src timeout 600 ./check $PROP quick $( [ "$REV" = "-R" ] && echo ${@:4} || echo ${@:3} ) 2>&1 | grep -v "^WARN" | tail -6
 rm -rf $T
